@@ -1026,6 +1026,17 @@ MUTANTS = [
     dict(id="C03.a-fresh-inputs-enqueued", prop="C03", file=CG + "input_session.rs",
          old="            if set_input_result == SetInputResult::Updated {", new="            if set_input_result != SetInputResult::Unchanged {", nth=0,
          expect="C03.a/InputSession::set_input/enqueue-only-if-updated"),
+    dict(id="C12.g-zigzag-decode-arithmetic-shift", prop="C12", file="crates/serialize/src/postcard.rs",
+         old="const fn zigzag_decode_i32(value: u32) -> i32 {\n    ((value >> 1) as i32) ^ (-((value & 1) as i32))",
+         new="const fn zigzag_decode_i32(value: u32) -> i32 {\n    ((value as i32) >> 1) ^ (-((value & 1) as i32))",
+         expect="C12.g/witness/zigzag-is-the-standard-bijection"),
+    dict(id="C12.g-varint-u64-continuation-off-by-one", prop="C12", file="crates/serialize/src/postcard.rs",
+         old="    mut value: u64,\n    buf: &mut [u8; MAX_VARINT_U64_BYTES],\n) -> usize {\n    let mut i = 0;\n    while value >= 0x80 {",
+         new="    mut value: u64,\n    buf: &mut [u8; MAX_VARINT_U64_BYTES],\n) -> usize {\n    let mut i = 0;\n    while value > 0x80 {",
+         expect="C12.g/witness/varint-encoder-is-leb128"),
+    dict(id="C12.g-zigzag-encode-i16-wrong-sign-shift", prop="C12", file="crates/serialize/src/postcard.rs",
+         old="    ((value << 1) ^ (value >> 15)) as u16", new="    ((value << 1) ^ (value >> 14)) as u16",
+         expect="C12.g/witness/zigzag-is-the-standard-bijection"),
     # ------------------------------------------------------------------ C09.f (D5)
     dict(id="C09.f-D5-fold-heap-in-arbitrary-order", prop="C09", file=ST + "key_of_set_map/cache.rs",
          old="""        let mut ordered = log.iter().collect::<Vec<_>>();
